@@ -12,9 +12,11 @@ from .. import core
 from . import c04 as G        # my own generators / BAM encoder (C04 module)
 
 ID = "C05"
-RULE = ("two tables read from generated BED/BED6/VCF/SAM/FASTQ/two-line FASTA/BAM files (all Lean-modelled), "
+RULE = ("two tables read from generated BED/BED6/VCF/SAM/FASTQ/two-line FASTA/BAM files (all Lean-modelled) and VCF with declared INFO "
+        "keys (nested lazy INFO table observed through its DP key; implementation lazy vs eager only), "
         "canonical and non-canonical text, whole and chunked read, each program run twice (lazy=True / lazy=False): random "
-        "register programs over {len, get field, t[slice|mask|int list], t[i], np.concatenate([t,u]), replace(t, f=values), "
+        "register programs over {len, get field, t[slice|mask|int list], t[i], np.concatenate([t,u]), replace(t, f=values), iteration, "
+        "todict, str(), "
         "t.f = values, tolist, write}; observation after every step (lazy writes are additionally held to C04's rule: original bytes when "
         "nothing was replaced, original text of every never-replaced column otherwise); plus EVERY program of length <= 2 (quick) / <= 3 (thorough) over a "
         "14-operation alphabet on a 2-row and a 1-row BED6 table. Non-trivial = the program touches >= 2 of "
@@ -46,7 +48,9 @@ MANIFEST = {
             "`programs` by induction over operation sequences on a register machine (equal observation traces, or failure in both); "
             "written bytes equal under the canonical-file hypothesis (write_equal); refutations of the shipped concatenate "
             "(first operand's overlay/cache keys only) and of the shipped __setattr__ (stale memoised data object); the buffer abstraction is "
-            "tied to the C04 extractor by buffer_index_refines / buffer_concat_refines. Correspondence: "
+            "tied to the C04 extractor by buffer_index_refines / buffer_concat_refines; the model's notions are pinned by list facts "
+            "and laws (fileCol_get, transposeN_get, get_idempotent, setattr_get, select_select_view, replace_replace_view, "
+            "concat_assoc_view, write_untouched). Correspondence: "
             "the real package run twice (lazy=True/False) on generated files and random programs vs the Lean lazy and eager models "
             "vs a Python list-of-rows oracle.",
     "note": "The buffer is abstracted to the list of rows it denotes (C04) and parsing to a per-row function (C02).",
@@ -189,7 +193,8 @@ def make_case(rng, fmt, nops, canonical=None):
             f = rng.choice(REPLACEABLE[fmt])
             ops.append({"k": "setattr", "a": a, "f": f, "c": _rand_kw_vals(rng, fmt, f, n)})
         elif r < 0.94:
-            ops.append({"k": "tolist", "a": a})
+            # conversions to rows / columns / text: tolist, iteration, todict, str()
+            ops.append({"k": rng.choice(["tolist", "tolist", "iter", "todict", "str"]), "a": a})
         else:
             ops.append({"k": "write", "a": a})
     ops += [{"k": "tolist", "a": 0}, {"k": "write", "a": 0}, {"k": "tolist", "a": 1}]
@@ -326,8 +331,10 @@ def oracle(c):
             raws[dst] = list(raws[a])
             over[dst] = set(over[a]) | {f for f, _ in kw}
             out.append("unit")
-        elif k == "tolist":
+        elif k in ("tolist", "iter", "todict"):
             out.append({"rows": [_blank(fmt, r) for r in t]})
+        elif k == "str":
+            out.append({"num": len(t)})     # the text itself is only compared lazy vs eager (see agree / agree_model)
         elif k == "write":
             # (BAM has no eager writer; the records of an unmodified BAM table are its source bytes — known finding when eager fails)
             out.append("err" if fmt == "bam" else {"bytes": _header(c) + "".join(_dump_row(fmt, r) for r in t)})
@@ -465,6 +472,14 @@ def _run_mode(c, lazy, paths, d):
                 obs = "unit"
             elif k == "tolist":
                 obs = {"rows": [_row_obs(e, names, kinds) for e in t.tolist()]}
+            elif k == "iter":
+                obs = {"rows": [_row_obs(e, names, kinds) for e in t]}
+            elif k == "todict":
+                dd = t.todict()
+                cols = [(["" for _ in range(len(t))] if (kd == "skip" or "." in nm) else _col(dd[nm], kd)) for nm, kd in zip(names, kinds)]
+                obs = {"rows": [list(r) for r in zip(*cols)] if len(t) else []}
+            elif k == "str":
+                obs = {"str": str(t)}
             elif k == "write":
                 out = os.path.join(d, f"out{int(lazy)}{G.FORMATS[fmt][0]}")
                 with bnp.open(out, "w", buffer_type=bt) as w:
@@ -564,9 +579,9 @@ def agree_model(c, got, m):
         if len(got[mode]) != len(m[mode]):
             return False
         for o, a, b in zip(c["ops"], got[mode], m[mode]):
-            if a == b:
+            if a == b or o["k"] == "str":
                 continue
-            if o["k"] == "row" and a == "err":
+            if o["k"] in ("row", "iter") and a == "err":
                 continue
             if o["k"] == "write" and mode == "eager":
                 if isinstance(a, dict) and isinstance(b, dict) and hdr and _body(c, b["bytes"]) == _body(c, a["bytes"]):
@@ -592,7 +607,10 @@ def model_request(c):
     if c["op"] != "run":
         return None
     tables = [[{"raw": r["raw"], "cells": r["cells"]} for r in t] for t in c["tables"]]
-    ops, drop = c["ops"], 0
+    # iteration and todict materialise the data object exactly like tolist; str() builds its text from a fresh slice and leaves
+    # the table unchanged (modelled by the state-neutral `len`; its text is compared lazy vs eager on the implementation only)
+    remap = {"iter": "tolist", "todict": "tolist", "str": "len"}
+    ops, drop = [dict(o, k=remap.get(o["k"], o["k"])) for o in c["ops"]], 0
     if c["chunk"]:
         parts = _chunk_parts(c)
         if parts and len(parts) > 1:
@@ -624,6 +642,6 @@ def finding_key(c, got, exp):
     how = "lazy-raises" if a == "err" else "eager-raises" if b == "err" else "values-differ"
     if k == "write" and how == "values-differ" and _body(c, a["bytes"]) == _body(c, b["bytes"]):
         how = "eager-header-differs"
-    if k == "row" and how != "values-differ":
-        return f"row:{how}"
+    if k in ("row", "iter", "str") and how != "values-differ":
+        return f"row:{how}"         # t[i], iteration and str() all take single rows of the columns
     return f"{c['fmt']}:{k}:{how}"
